@@ -5,7 +5,7 @@ From Coq Require Import NArith ZArith List Bool Lia.
 From LV Require Import Model.TableSM Model.Catalogue Model.WalSM
      Proofs.TableSM Proofs.WalSMBase Proofs.WalSM Proofs.WalSMLog Proofs.Catalogue
      Proofs.CatalogueLog Proofs.CatalogueInv Proofs.CatalogueFlush Proofs.CatalogueRecover
-     Proofs.CatalogueMain.
+     Proofs.CatalogueMain Proofs.CatalogueSeed Proofs.CatalogueKF3 Proofs.CatalogueTotal.
 Import ListNotations.
 Open Scope N_scope.
 
@@ -80,21 +80,34 @@ Proof.
     eapply Forall_impl; [|exact Hr]. cbn. intros r Hi x Hx. apply Hs. apply Hi. exact Hx.
 Qed.
 
-(* Full statements that are not closed yet (kept as definitions, see CLAIMED):
-   - the same exactness for SELECT name FROM _meta_tables;
-   - with the literal of Table::new repaired, the guarded run never stops at the F3 site, and a
-     restart of a reachable state always returns (no catalogue-loading panic). *)
+(* Compaction carries every column over - for the repaired literal.  With Table::new seeding
+   catalogue tables with "column_name", in every history of well-formed requests the guarded run
+   never stops at the F3 site: whenever a flush compacts partitions of any table (client table,
+   _meta_tables, _meta_columns_<t>), the name set it iterates over covers every column the merged
+   rows carry.  (With the literal as it stands this is refuted: C13_compaction_carries_all_refuted.) *)
+Theorem C13_compaction_carries_all :
+  forall (c : cfg) (ops : list op),
+    c_seed c = s_column_name -> Forall wf_op ops -> run true c ops (init c) <> Known KF3.
+Proof. exact run_not_kf3. Qed.
+
+(* A restart always returns.  For every history of well-formed requests the restart of the reached
+   state ends in a state: the lazy loading of column names during WAL replay always finds the
+   catalogue table (a client table restored from partitions has a restored catalogue table, since
+   its first rows and its first catalogue rows were flushed together and partitions are never
+   empty) and finds only strings in it.  Together with C08_contiguity_assert_unreachable: none of
+   the panic sites of InnerLocustDB::new / Storage::recover is reachable by clean restarts. *)
+Theorem C13_restart_total :
+  forall (c : cfg) (ops : list op) (s : db),
+    Forall wf_op ops -> run true c ops (init c) = Val s -> exists s', step true c s ORestart = Val s'.
+Proof. exact reachable_restart_total. Qed.
+
+(* Full statement that is not closed yet (kept as a definition, see CLAIMED): the same exactness
+   for SELECT name FROM _meta_tables. *)
 Definition C13_tables_listed_statement : Prop :=
   forall (c : cfg) (ops : list op) (s : db),
     Forall wf_op ops -> run true c ops (init c) = Val s ->
     exists names, string_column s_name (content s s_meta_tables) = Some names /\ NoDup names /\
       forall n, In n names <-> (n <> s_meta_tables /\ exists t, lookup n (tabs s) = Some t).
-
-Definition C13_compaction_carries_all_statement : Prop :=
-  forall (c : cfg) (ops : list op),
-    c_seed c = s_column_name -> Forall wf_op ops ->
-    run true c ops (init c) <> Known KF3 /\
-    (forall s, run true c ops (init c) = Val s -> exists s', step true c s ORestart = Val s').
 
 (* Finding F3 (faithful model, seed "column_names"): compaction iterates over Table.column_names,
    which for a catalogue table restored from disk is {"column_names"}; the column "column_name" is
